@@ -5,6 +5,7 @@ package main
 
 import (
 	"bytes"
+	"encoding/binary"
 	"fmt"
 	"io"
 	"io/fs"
@@ -175,6 +176,56 @@ func init() {
 			}
 			time.Sleep(20 * time.Millisecond)
 			canary(h.name, i+1)
+		}
+		// a terminal that pipelines: 41 control frames in one write, nothing read until all are sent - every one of them is answered
+		{
+			c, err := net.Dial("tcp", addr)
+			ok := err == nil
+			if ok {
+				c.SetDeadline(time.Now().Add(8 * time.Second))
+				name := []byte("pipe.bin")
+				b := ctl(0x1210, body1210("JS", r, []aFile{{name, make([]byte, 30)}}))
+				for k := 0; k < 20; k++ {
+					b = append(b, ctl(0x1211, body1211(name, 0, 30))...)
+					b = append(b, ctl(0x1212, body1211(name, 0, 30))...)
+				}
+				c.Write(b)
+				time.Sleep(300 * time.Millisecond) // (the replies pile up unread for a while)
+				buf := make([]byte, 8192)
+				var acc []byte
+				for bytes.Count(acc, []byte{0x7e}) < 82 {
+					n, err := c.Read(buf)
+					if err != nil {
+						ok = false
+						break
+					}
+					acc = append(acc, buf[:n]...)
+				}
+				c.Close()
+			}
+			out.put(map[string]any{"ev": "canary", "after": "41-control-frames-pipelined (every one answered)", "ok": ok})
+		}
+		// announcements with values at the end of their ranges: a file of 4 GiB - 1 (and of 0xFFFF0001 bytes) asked about at once;
+		// a BCD time made of the nibble 0xA; then an ordinary upload
+		for k, sz := range []uint32{0xFFFFFFFF, 0xFFFF0001, 0x80000000} {
+			if c, err := net.Dial("tcp", addr); err == nil {
+				name := []byte(fmt.Sprintf("huge%d", k))
+				b := body1210("JS", r, []aFile{{name, nil}})
+				binary.BigEndian.PutUint32(b[len(b)-4:], sz)
+				for i := 7 + 7; i < 7+7+6; i++ {
+					b[i] = 0xAA // the alarm sign's time
+				}
+				c.Write(ctl(0x1210, b))
+				bb := body1211(name, 0, 0)
+				binary.BigEndian.PutUint32(bb[len(bb)-4:], sz)
+				c.Write(ctl(0x1211, bb))
+				c.Write(ctl(0x1212, bb))
+				c.SetReadDeadline(time.Now().Add(60 * time.Millisecond))
+				io.Copy(io.Discard, c)
+				c.Close()
+			}
+			time.Sleep(20 * time.Millisecond)
+			canary(fmt.Sprintf("announced-size-%x-and-a-time-of-AA", sz), 900+k)
 		}
 		os.Stdout = so
 	}
